@@ -168,6 +168,7 @@ type World struct {
 	SignKey    interface{}           // the server's signing key (ID tokens, JWT access tokens)
 	SessionFn  func() fosite.Session // session handed to NewAuthorizeResponse / NewDeviceResponse (nil = NewSess(Subject))
 	ExtraAuthz url.Values            // additional authorization request parameters (prompt, max_age, ...)
+	Assertions []string              // client assertions the harness presented (secrets for C20)
 	Verifier   map[int]string        // per code id: the PKCE verifier used at authorization
 	PkceOf     map[int]string        // per code id: method used
 	DevRID     map[int]string
